@@ -392,7 +392,7 @@ int64_t pick_max_evals(vh::rng_t& rng, const bool small)
 
 struct opt_stats_t
 {
-    int64_t m_runs{0}, m_evals{0}, m_ties{0}, m_nonfinite{0}, m_abort{0}, m_bound_hit{0}, m_maxevals_reached{0};
+    int64_t m_runs{0}, m_evals{0}, m_ties{0}, m_nonfinite{0}, m_abort{0}, m_bound_hit{0}, m_maxevals_reached{0}, m_min_slack{1000000};
 };
 
 void run_opt(vh::rng_t& rng, const std::string& caseid, const bool surrogate, const bool thorough, opt_stats_t& stats)
@@ -554,6 +554,7 @@ void run_opt(vh::rng_t& rng, const std::string& caseid, const bool surrogate, co
     if (outcome == "abort") { ++stats.m_abort; }
     if (evals > max_evals) { ++stats.m_bound_hit; }
     if (evals >= max_evals) { ++stats.m_maxevals_reached; }
+    stats.m_min_slack = std::min(stats.m_min_slack, max_evals + pow3 - evals);
 }
 
 // ------------------------------------------------------------------------------------------------
@@ -1032,10 +1033,10 @@ int main(int argc, char** argv)
     const char* tdir = mkdtemp(tmpl);
     if (tdir != nullptr) { setenv("TMPDIR", tdir, 1); }
 
-    const int64_t n_ls    = thorough ? 40000 : 4000;
-    const int64_t n_local = thorough ? 40000 : 3000;
-    const int64_t n_surr  = thorough ? 1500 : 150;
-    const int64_t n_tune  = thorough ? 1500 : 150;
+    const int64_t n_ls    = thorough ? 100000 : 4000;
+    const int64_t n_local = thorough ? 150000 : 3000;
+    const int64_t n_surr  = thorough ? 5000 : 150;
+    const int64_t n_tune  = thorough ? 5000 : 150;
 
     opt_stats_t  ostats;
     tune_stats_t tstats;
@@ -1060,9 +1061,9 @@ int main(int argc, char** argv)
         std::filesystem::remove_all(tdir, ec);
     }
     std::printf("DONE fails=%d opt_runs=%" PRId64 " opt_evals=%" PRId64 " opt_with_ties=%" PRId64 " opt_nonfinite=%" PRId64 " opt_abort=%" PRId64
-                " opt_over_max_evals=%" PRId64 " opt_reached_max_evals=%" PRId64 " tune_runs=%" PRId64 " tune_calls=%" PRId64 " tune_trials=%" PRId64
+                " opt_over_max_evals=%" PRId64 " opt_reached_max_evals=%" PRId64 " opt_min_slack_to_bound=%" PRId64 " tune_runs=%" PRId64 " tune_calls=%" PRId64 " tune_trials=%" PRId64
                 " tune_optimum_ties=%" PRId64 " tune_throws=%" PRId64 "\n",
-                g_fail, ostats.m_runs, ostats.m_evals, ostats.m_ties, ostats.m_nonfinite, ostats.m_abort, ostats.m_bound_hit, ostats.m_maxevals_reached,
+                g_fail, ostats.m_runs, ostats.m_evals, ostats.m_ties, ostats.m_nonfinite, ostats.m_abort, ostats.m_bound_hit, ostats.m_maxevals_reached, ostats.m_min_slack,
                 tstats.m_runs, tstats.m_calls, tstats.m_trials, tstats.m_optimum_ties, tstats.m_throws);
     return 0;
 }
